@@ -252,9 +252,17 @@ class Interp:
         self.max_depth = 400
         self.fn_name = '?'
         self.frame_stack = []
+        self.loop_guards = []
+        from . import strings as _strings
+        st.on_fact = lambda t: _strings.learn(self, t)
 
     def current_function_name(self):
         return self.fn_name
+
+    def note_heap_write(self, obj, attr):
+        """Hook for the loop rule: a store to obj.attr (or a mutation of container obj, attr None) happens."""
+        for g in getattr(self, 'loop_guards', ()):
+            g.check(self, obj, attr)
 
     # ======================================================================= frames
     def lookup(self, name, frame):
